@@ -43,7 +43,7 @@ class C10(Check):
     ID = 'C10'
     RULE = ('smooth signal + Gaussian noise on 80-400 abscissae (random, clustered, with duplicates; sorted or not), order 2-5, '
             'breakpoints by bkspace/nbkpts/everyn with >= order+4 good points per interval, 0-6 injected outliers of 8-60 sigma, '
-            '0-10% zero and negative weights, limits 2-8 (also asymmetric), maxiter 0-10, invvar=None path, float32 input.  Each '
+            '0-10% zero and negative weights, contiguous zero-weight gaps several breakpoint intervals wide (class gap), limits 2-8 (also asymmetric), maxiter 0-10, invvar=None path, float32 input.  Each '
             'problem is run as given, under a random permutation, and with the non-positively weighted points deleted, and is '
             'compared with an independent dense rejection loop.  Non-trivial: >= 1 point rejected by a limit and a permutation '
             'applied; distinct by input hash.  Problems where any residual comes within 1e-6 (float32: 2e-3) of a limit in the '
@@ -51,7 +51,7 @@ class C10(Check):
     ASSUMPTIONS = ['well-supported problems only (ill-posed fits are C09); x2 / 2-D fits excluded (deprecated by the code itself)',
                    'curves are compared at abscissae inside the returned knot range only',
                    'the documented procedure is cumulative: a point rejected in one pass is not re-admitted (inmask = previous mask)']
-    REQUIRED_COUNTERS = ('permutations_checked', 'refits_observed', 'reference_loops_agreeing', 'maxiter0_cases',
+    REQUIRED_COUNTERS = ('fixed_point_optimality_checked', 'breakpoint_dropped_cases', 'permutations_checked', 'refits_observed', 'reference_loops_agreeing', 'maxiter0_cases',
                          'nonpositive_weight_points', 'outliers_flagged', 'deletion_checks', 'invvar_none_cases', 'float32_cases')
     CASE_CPU_S = 120
 
@@ -71,7 +71,8 @@ class C10(Check):
 
     def budget(self, tier):
         k = 1 if tier == 'quick' else 100
-        return {'random': 500 * k, 'strong_outliers': 150 * k, 'maxiter0': 100 * k, 'invvar_none': 60 * k, 'float32': 80 * k}
+        return {'random': 500 * k, 'strong_outliers': 150 * k, 'maxiter0': 100 * k, 'invvar_none': 60 * k, 'float32': 80 * k,
+                'gap': 150 * k}
 
     # ------------------------------------------------------------------ gen
     def gen(self, cls, rng, i):
@@ -109,17 +110,28 @@ class C10(Check):
         bad = (g.uniform(size=n) < zfrac)
         bad[io] = False
         iv[bad] = g.choice([0.0, 0.0, -1.0], int(bad.sum()))
+        if cls == 'gap':
+            # a contiguous block of zero-weight points (a data gap several breakpoint intervals wide): the fit has to
+            # drop breakpoints mid-iteration and carry on with the reduced set
+            a = rng.uniform(1.0, 6.0)
+            wgap = rng.uniform(1.5, 3.5)
+            blk = (x > a) & (x < a + wgap)
+            blk[io] = False
+            iv[blk] = 0.0
         # intervals with >= k+4 good points: choose the breakpoint option value accordingly
         good = x[iv > 0]
         ngood = good.size
         maxint = max(1, ngood // (3 * (k + 4)))
         nint = rng.randint(1, maxint)
         opt = rng.choice(['nbkpts', 'bkspace', 'everyn'])
+        if cls == 'gap':
+            nint = max(8, min(25, ngood // (k + 6)))         # intervals of ~0.4-1.2: the gap spans several of them
+            opt = rng.choice(['nbkpts', 'bkspace'])
         # well-supported: every (uniform) interval keeps >= k+4 good points even after the outliers are rejected
         keep = iv > 0
         keep[io] = False
         gk = x[keep]
-        while nint > 1 and np.histogram(gk, bins=np.linspace(good.min(), good.max(), nint + 1))[0].min() < k + 4:
+        while cls != 'gap' and nint > 1 and np.histogram(gk, bins=np.linspace(good.min(), good.max(), nint + 1))[0].min() < k + 4:
             nint -= 1
         if opt == 'nbkpts':
             val = nint + 1
@@ -130,6 +142,8 @@ class C10(Check):
         upper = rng.choice([5, 5, 3, 4, 8, rng.uniform(2, 8)])
         lower = upper if rng.random() < 0.6 else rng.choice([5, 3, 8, rng.uniform(2, 8)])
         maxiter = 0 if cls == 'maxiter0' else rng.choice([1, 2, 3, 10, 10, rng.randint(0, 10)])
+        if cls == 'gap':
+            maxiter = rng.choice([5, 10, 10, 20])
         dt = 'f4' if cls == 'float32' else 'f8'
         return {'kind': cls, 'x': x.astype(dt).astype('f8').tolist(), 'y': y.astype(dt).astype('f8').tolist(),
                 'iv': None if cls == 'invvar_none' else iv.astype(dt).astype('f8').tolist(), 'dtype': dt,
@@ -177,8 +191,8 @@ class C10(Check):
             # the fit's own conditioning guard dropped a breakpoint (typically after the right-most points were
             # rejected): by the code's own criterion the problem was not well supported -> outside C10's domain (C09
             # decides whether a drop was legitimate); counted, never a verdict
-            out.undecide()
-            out.count('breakpoint_dropped_out_of_domain')
+            out.count('breakpoint_dropped_cases')
+            self._fixed_point(out, case, s, m, c, x, y, iv)
             return
         # effective weights as the documented procedure sees them
         xd, yd = x.astype('f8'), y.astype('f8')
@@ -263,6 +277,50 @@ class C10(Check):
         rejected_by_limit = int((pos & ~m).sum())
         out.nontrivial = decided and rejected_by_limit >= 1
         out.info.update(order=k, n=n, fits=nfits, rejected=rejected_by_limit, maxiter=case['maxiter'], opt=case['opt'])
+
+    def _fixed_point(self, out, case, s, m, c, x, y, iv):
+        """The fit dropped breakpoints (data gap).  The intermediate knot sets are the code's own business, but the END
+        state is decidable: weights clause, and - if the returned mask is a fixed point of the rejection rule for the
+        returned curve - the curve must be the weighted LS optimum over the breakpoints that are still unmasked."""
+        xd, yd = x.astype('f8'), y.astype('f8')
+        n = x.size
+        if iv is None:
+            var = float(np.var(yd) * n / (n - 1)) or 1.0
+            ivd = np.full(n, 1.0 / var)
+        else:
+            ivd = iv.astype('f8')
+        pos = ivd > 0
+        out.expect(not bool(np.any(m[~pos])), 'weights', 'point with non-positive inverse variance flagged good')
+        k = case['nord']
+        gb = np.asarray(s.breakpoints, dtype='f8')[np.asarray(s.mask, dtype=bool)]
+        if len(gb) < 2 * k or not np.all(np.isfinite(c)):
+            out.undecide()
+            return
+        r = (yd - c.astype('f8')) * np.sqrt(np.where(pos, ivd, 0.0))
+        band = 1e-6
+        new = m & ~((r < -case['lower']) | (r > case['upper']))
+        near = bool(np.any(m & ((np.abs(r + case['lower']) < band * max(1, case['lower'])) |
+                                (np.abs(r - case['upper']) < band * max(1, case['upper'])))))
+        if near or not np.array_equal(new, m):
+            out.undecide()              # stopped by maxiter before converging: the last refit used an earlier mask
+            return
+        A = BR.basis_matrix(gb, k, xd, extrapolate=True)
+        wfin = np.where(m, ivd, 0.0)
+        cref, rank, sv = BR.wls(A, yd, wfin)
+        cond = float(sv[0] / sv[-1]) if sv[-1] > 0 else np.inf
+        if rank < A.shape[1] or cond ** 2 * 1.1e-16 > 1e-6:
+            out.undecide()
+            return
+        inside = (xd >= gb[k - 1]) & (xd <= gb[len(gb) - k]) & m
+        chi = float(np.sum(wfin * (yd - c.astype('f8')) ** 2))
+        chi_ref = float(np.sum(wfin * (yd - A @ cref) ** 2))
+        scale = float(np.sum(wfin * yd * yd)) + 1e-300
+        out.expect(chi <= chi_ref + 1e-7 * scale, 'fixed-point-optimum',
+                   'converged (the returned mask is a fixed point of the rejection rule) but the returned curve is not the weighted '
+                   'LS optimum over the %d unmasked breakpoints: chi-square %.6g vs %.6g' % (len(gb), chi, chi_ref),
+                   rejected=int((pos & ~m).sum()), dropped_breakpoints=int((~np.asarray(s.mask, dtype=bool)).sum()))
+        out.count('fixed_point_optimality_checked')
+        out.nontrivial = True
 
     def summarise(self, case):
         c = dict(case)
